@@ -12,9 +12,16 @@ def build_batch(programs, cmd="lang", tables=(), langs="python", ext=".py", time
     requested extra tables filtered to the program's unit."""
     files = {}
     for p in programs:
+        if p.get("modules"):
+            # a multi-file program lives in a directory of its own: <name>/main<ext> plus one file per extra module
+            p.setdefault("file", f"{p['name']}/main{ext}")
         p.setdefault("file", p["name"] + ext)
         text = p.get("file_src", p["src"])
-        p["hash"] = hashlib.sha256(text.encode()).hexdigest()[:10]
+        h = hashlib.sha256(text.encode())
+        for mod, msrc in sorted((p.get("modules") or {}).items()):
+            h.update(mod.encode() + b"\0" + msrc.encode())
+            files[f"{p['name']}/{mod.replace('.', '/')}{ext}"] = msrc
+        p["hash"] = h.hexdigest()[:10]
         files[p["file"]] = text
     run = tengine.run_lian(files, cmd=cmd, langs=langs, timeout=timeout, settings_files=settings_files)
     info = dict(rc=run.rc, wall_s=round(run.wall, 1), log_tail=run.log[-1500:], cmd=cmd)
@@ -27,6 +34,11 @@ def build_batch(programs, cmd="lang", tables=(), langs="python", ext=".py", time
             p["unit_id"] = uid
             p["rows"] = tengine.jsonable_rows(gir.get(uid, [])) if uid is not None else []
             ids = {r["stmt_id"] for r in p["rows"]}
+            p["extra_rows"] = {}
+            for mod in (p.get("modules") or {}):
+                muid = units.get(f"in/{p['name']}/{mod.replace('.', '/')}{ext}")
+                p["extra_rows"][mod.split(".")[-1]] = tengine.jsonable_rows(gir.get(muid, [])) if muid is not None else []
+                ids |= {r["stmt_id"] for r in p["extra_rows"][mod.split(".")[-1]]}
             for t in extra:
                 if t == "flows":
                     p[t] = [dict(source_stmt_id=int(r["source_stmt_id"]), sink_stmt_id=int(r["sink_stmt_id"]))
